@@ -63,6 +63,58 @@ impl<F: FnMut(usize) -> [u8; 17]> RngCore for IterRng<F> {
     }
 }
 
+/// A generator whose output is a fixed sequence of 32-bit words (an honest ChaCha20 stream) with a mask XORed onto
+/// the first words: lets a check ask which generator bits a value depends on. fill_bytes consumes whole words
+/// (little-endian), like the block generators of rand.
+pub struct WordStream {
+    head: Vec<u32>,
+    base: rand_chacha::ChaCha20Rng,
+    pos: usize,
+    limit: usize,
+}
+
+impl WordStream {
+    /// `limit` words may be drawn in total; `flip_bit` indexes the bits of the first 64 words
+    pub fn new(stream: u64, limit: usize, flip_bit: Option<usize>) -> Self {
+        use rand::SeedableRng;
+        let mut base = rand_chacha::ChaCha20Rng::seed_from_u64(0x5eed_0000_0000_0000 ^ stream);
+        let mut head: Vec<u32> = (0..64).map(|_| base.next_u32()).collect();
+        if let Some(b) = flip_bit {
+            head[b / 32] ^= 1 << (b % 32);
+        }
+        WordStream { head, base, pos: 0, limit }
+    }
+}
+
+impl RngCore for WordStream {
+    fn next_u32(&mut self) -> u32 {
+        if self.pos >= self.limit {
+            std::panic::panic_any(HORIZON_PANIC);
+        }
+        self.pos += 1;
+        if self.pos <= self.head.len() {
+            self.head[self.pos - 1]
+        } else {
+            self.base.next_u32()
+        }
+    }
+    fn next_u64(&mut self) -> u64 {
+        let lo = self.next_u32() as u64;
+        let hi = self.next_u32() as u64;
+        (hi << 32) | lo
+    }
+    fn fill_bytes(&mut self, dest: &mut [u8]) {
+        for chunk in dest.chunks_mut(4) {
+            let w = self.next_u32().to_le_bytes();
+            chunk.copy_from_slice(&w[..chunk.len()]);
+        }
+    }
+    fn try_fill_bytes(&mut self, dest: &mut [u8]) -> Result<(), rand::Error> {
+        self.fill_bytes(dest);
+        Ok(())
+    }
+}
+
 /// Any RNG with a draw budget: exceeding it raises the horizon panic (rejection loops under a bad key
 /// or adversarial answers never go quiescent on their own).
 pub struct Bounded<R: RngCore> {
